@@ -238,6 +238,36 @@ def r15_4(ctx, R, head):
                                     if key[0] == "proj" and key[2][-1] == head:
                                         ok = True
                                         det = "%s(self.%s) is not Some" % (src[1].split("::")[-1], head[1:])
+            if not ok:
+                # lookup written out in place (or inlined): every feasible path arriving at the refusal knows that
+                # slots.get_mut(self.HEAD) -- possibly behind `?` -- produced None
+                from lib_flow import arrival_knowledge
+                slots_field = R.slot_enum[2]
+
+                def head_lookup(x):
+                    x = strip_refs(x)
+                    if x[0] == "call" and (x[1] or "").endswith("::branch") and x[2]:
+                        x = strip_refs(x[2][0])
+                    if x[0] != "call" or not x[2]:
+                        return False
+                    key = strip_refs(x[2][-1])
+                    if not (key[0] == "proj" and key[2] and key[2][-1] == head):
+                        return False
+                    if x[1] in ctx.facts.bodies:
+                        return True
+                    return bool(re.search(r"core::slice::<impl \[T\]>::get_mut$", x[1] or "")) and ("." + slots_field) in repr(x[2][0])
+                ks = arrival_knowledge(ins, fl, rb)
+                allk = bool(ks)
+                for k in ks:
+                    hit = False
+                    for p, v in k.items():
+                        m = re.match(r"_(\d+)$", p)
+                        if m and v in ("None", "Break") and head_lookup(fl.local_expr(int(m.group(1)))):
+                            hit = True
+                    allk = allk and hit
+                if allk:
+                    ok = True
+                    det = "slots.get_mut(self.%s) is None on all %d feasible arrivals" % (head[1:], len(ks))
             ctx.ob("R15.4", ins, "refuses-only-when-no-slot-at-free-head", ok, ins.loc(rb), det)
     ctx.floor("R15.4", "refusal-returns", n, 1)
 
